@@ -85,6 +85,25 @@ def HeartbeatRecorded (i : Inst) (t : Nat) (pre post : State) : Prop :=
   (i, t) ∈ post.hb ∧ (∀ p ∈ post.hb, p.1 = i → p.2 = t) ∧
   (∀ p ∈ pre.hb, p.1 ≠ i → p ∈ post.hb) ∧ (∀ p ∈ post.hb, p.1 ≠ i → p ∈ pre.hb)
 
+/-- **Every entry point records under the id the client gave** (with `HeartbeatRecorded`): an answered report of `i`
+    for `u` leaves a condition owned by `i` under `i`'s condition name (unless that name is the upstream state
+    condition's, which the report rewrites last). -/
+def ReportRecorded (shardOf : Ups → Nat) (u : Ups) (i : Inst) (post : State) : Prop :=
+  condName u i ≠ stateName u →
+    ∃ r ∈ post.conds, r.1 = shardOf u ∧ r.2.inst = i ∧ r.2.upstream = u ∧ r.2.name = condName u i
+
+/-- … and every request of an acquire of `i` that was served by a max-in-flight flow control (no error) leaves an
+    in-flight state under `i` in that flow control. -/
+def AcquireRecorded (shardOf : Ups → Nat) (u : Ups) (i : Inst) (rs : List (Str × Bool × Int × String)) (post : State) :
+    Prop :=
+  ∀ r ∈ rs, r.2.2.2 = "" →
+    ∃ x ∈ post.fcs, x.1 = shardOf u ∧ x.2.1 = u ∧ x.2.2.name = r.1 ∧ x.2.2.getState i ≠ none
+
+instance (f : Ups → Nat) (u : Ups) (i : Inst) (s : State) : Decidable (ReportRecorded f u i s) := by
+  unfold ReportRecorded; infer_instance
+instance (f : Ups → Nat) (u : Ups) (i : Inst) (rs : List (Str × Bool × Int × String)) (s : State) :
+    Decidable (AcquireRecorded f u i rs s) := by unfold AcquireRecorded; infer_instance
+
 /-- **Other instances' actions**: an action of instance `j` removes nothing recorded for `i ≠ j`
     (conditions: except the one stored under `j`'s own name and the upstream state condition, which it rewrites). -/
 def OthersKept (u : Option Ups) (j : Inst) (pre post : State) : Prop :=
@@ -155,7 +174,8 @@ def Out.isOk : Out → Bool
   | _ => true
 
 /-- The judge of one step: the names of the C18 clauses that `(pre, op, out, post)` violates. -/
-def judgeStep (shardOf : Ups → Nat) (pre : State) (op : Op) (ok : Bool) (post : State) : List String :=
+def judgeStep (shardOf : Ups → Nat) (pre : State) (op : Op) (out : Out) (post : State) : List String :=
+  let ok := Out.isOk out
   let chk (name : String) (b : Bool) : List String := if b then [] else [name]
   match op with
   | .cleanupTimeout now =>
@@ -167,9 +187,14 @@ def judgeStep (shardOf : Ups → Nat) (pre : State) (op : Op) (ok : Bool) (post 
       chk "c18.live-instance-removed-by-unknown-pass" (decide (LiveSafeUnknown pre post)) ++
       chk "c18.pass-deletes-in-foreign-shard" (decide (ForeignKept shardOf true pre post))
   | .report u j _ _ =>
-      (if ok then chk "c18.recorded-sum-not-recomputed" (decide (SumRecorded shardOf u post)) else []) ++
+      (if ok then chk "c18.recorded-sum-not-recomputed" (decide (SumRecorded shardOf u post)) ++
+                  chk "c18.report-not-recorded-under-the-reporting-id" (decide (ReportRecorded shardOf u j post)) else []) ++
       chk "c18.other-instance-removed-by-report" (decide (OthersKept (some u) j pre post))
-  | .acquire _ j _ _ => chk "c18.other-instance-removed-by-acquire" (decide (OthersKept none j pre post))
+  | .acquire u j _ _ =>
+      chk "c18.other-instance-removed-by-acquire" (decide (OthersKept none j pre post)) ++
+      (match out with
+       | .acquired rs => chk "c18.acquire-not-recorded-under-the-acquiring-id" (decide (AcquireRecorded shardOf u j rs post))
+       | _ => [])
   | .burst _ j _ _ => chk "c18.other-instance-removed-by-acquire" (decide (OthersKept none j pre post))
   | .heartbeat i t => chk "c18.heartbeat-not-recorded" (decide (HeartbeatRecorded i t pre post))
   | .handle u => chk "c18.upstream-event-removes-conditions" (decide (EventKeeps shardOf u pre post))
